@@ -415,7 +415,7 @@ static void init(void)
     setenv("HWLOC_SYNTHETIC", "pack:1 core:16 pu:1", 1);
     setenv("HWLOC_THISSYSTEM", "0", 1);
     char tmpl[] = "/tmp/verif_home_XXXXXX";
-    char *d = mkdtemp(tmpl);
+    char *d = hx_scratch_dir(tmpl);
     if (d) setenv("HOME", d, 1);
     extern char **environ;
     for (char **e = environ; *e;) {
